@@ -137,7 +137,8 @@ def finish(ctx, mod, status, message, wall, repo, verif, known, verbose=False):
         print(f'KNOWN-FINDING: property={prop} {k.get("what", o.id)}')
     print(f'[{prop}] tier={ctx.tier} obligations={len(ctx.obligations)} proved={discharged} '
           f'refuted={len(refuted)} undecided={len(undecided)} errors={len(errors)} '
-          f'solver_calls={STATS["solver_calls"]} wall={wall:.1f}s status={status}')
+          f'solver_calls={STATS["solver_calls"]} wall={wall:.1f}s status={status}'
+          + (f' both_unsat={STATS["both_unsat"]}' if STATS.get('both_unsat') else ''))
     if message:
         print(f'[{prop}] {message}')
     if os.environ.get('PYVC_PROF'):
